@@ -51,6 +51,49 @@ def gen_history(rng, hid, prec="d", maxlen=8):
     return {"id": hid, "prec": prec, "M": M, "ops": ops, "panel": rng.choice([1, 2, 8]), "relax": rng.choice([1, 2, 6])}
 
 
+def gen_fallback_history(rng, hid, prec="d"):
+    """pivot reuse that must fall back in SOME columns while other workers are busy elsewhere: many independent diagonal blocks
+    (wide elimination forest), first factorization with diagonal pivots, then `usepr = YES` refactorizations whose new values make
+    the old (diagonal) pivot of a few columns fail the threshold in favour of a row that is the old pivot row of an ancestor column."""
+    nb = rng.randint(8, 24); bs = rng.choice([4, 6, 8]); n = nb * bs
+    pat = set()
+    for b in range(nb):
+        o = b * bs
+        for i in range(bs):
+            pat.add((o + i, o + i))
+            if i + 1 < bs and rng.random() < 0.8: pat.add((o + i + 1, o + i)); pat.add((o + i, o + i + 1))
+            for _ in range(rng.randint(0, 2)):
+                k = rng.randrange(bs); pat.add((o + i, o + k))
+    M = G.from_pattern(n, pat, lambda i, j: 0.0, False); M.kind = "blockdiag-fallback"
+    def dominant():
+        v = []
+        for j, col in M.cols():
+            for i, _ in col:
+                v.append(float(rng.choice([-1, 1]) * (8 + rng.random())) if i == j else float(rng.uniform(-1, 1)))
+        return v
+    V1 = dominant()
+    def spoiled(base):
+        v = list(base)
+        for b in rng.sample(range(nb), max(1, nb // 4)):
+            o = b * bs
+            # a column whose old pivot (the diagonal) becomes tiny while an entry further down becomes the maximum
+            for j in rng.sample(range(o, o + bs - 1), bs - 1):
+                below = [k for k in range(M.colptr[j], M.colptr[j + 1]) if M.rowind[k] > j]
+                dk = [k for k in range(M.colptr[j], M.colptr[j + 1]) if M.rowind[k] == j]
+                if below and dk:
+                    v[dk[0]] = 1.0 / 64; v[rng.choice(below)] = 5.0
+                    break
+        return v
+    ops = [{"op": "first", "vals": V1, "u": 1.0, "P": rng.choice([1, 2, 4]), "colperm": 0}]
+    cur = V1
+    for _ in range(rng.randint(2, 4)):
+        V2 = spoiled(V1)
+        ops.append({"op": "refactor", "vals": V2, "usepr": 1, "u": 1.0, "P": rng.choice([2, 3, 4, 8])})
+        ops.append({"op": "refactor", "vals": list(V1), "usepr": 0, "u": 1.0, "P": rng.choice([1, 2, 4])})
+    if prec == "s": G.round_single(M)
+    return {"id": hid, "prec": prec, "M": M, "ops": ops, "panel": rng.choice([1, 2, 8]), "relax": rng.choice([1, 2, 6])}
+
+
 def ops_last_u(ops):
     for o in reversed(ops):
         if "u" in o: return o["u"]
@@ -100,8 +143,9 @@ def run_histories(ctx, nh, flavour="plain"):
     exes = C.build_harness_all_prec("h_drv.c", flavour, precs="ds")
     rng = random.Random(ctx.seed * 8191 + 8)
     hs = []
-    for i in range(nh):
-        h = gen_history(rng, "h%d" % i, prec=rng.choice("dds"))
+    nfb = nh // 3
+    for i in range(nh + nfb):
+        h = gen_fallback_history(rng, "h%d" % i, prec=rng.choice("dds")) if i >= nh else gen_history(rng, "h%d" % i, prec=rng.choice("dds"))
         s, rhs = script_of(h, rng)
         h["script"] = s; h["rhs"] = rhs
         hs.append(h)
@@ -110,7 +154,7 @@ def run_histories(ctx, nh, flavour="plain"):
         return D.run_script(exes[h["prec"]], h["script"], timeout=180)
     with ThreadPoolExecutor(C.NPROC) as ex:
         outs = list(ex.map(one, hs))
-    stats = {"histories": nh, "calls": 0, "refactor_calls": 0, "usepr_kept": 0, "usepr_fell_back": 0, "factored_solves": 0, "lu_judged": 0}
+    stats = {"histories": nh + nfb, "fallback_family_histories": nfb, "calls": 0, "refactor_calls": 0, "usepr_kept": 0, "usepr_fell_back": 0, "factored_solves": 0, "lu_judged": 0}
     viol = []; lutexts = []; luowners = {}
     for h, (ops, done, rc, err) in zip(hs, outs):
         M = h["M"]; n = M.n
